@@ -109,15 +109,24 @@ def free_port():
 def run_with_resume(spec, kill, timeout=120):
     """run 1 with a kill plan (dict of kill_* keys), run 2 = same command on the same
     directory/database/port. Returns (run1, run2); requests of run 2 are those logged after run 1."""
-    work = tempfile.mkdtemp(prefix='verif-crawl-')
-    try:
-        port = free_port()
-        s1 = dict(spec, port=port, **kill)
-        r1 = run_once(work, s1, timeout)
-        n1 = len(r1['requests'])
-        s2 = dict(spec, port=port)
-        r2 = run_once(work, s2, timeout)
-        r2['requests'] = r2['requests'][n1:]
-        return r1, r2
-    finally:
-        shutil.rmtree(work, ignore_errors=True)
+    busy = lambda r: r.get('rc') not in (0, 9) and 'Address already in use' in (r.get('stderr_tail') or '')
+    for attempt in range(4):
+        work = tempfile.mkdtemp(prefix='verif-crawl-')
+        tp = spec.get('engine_trace_path')
+        if attempt and tp and os.path.exists(tp):
+            os.remove(tp)       # the void attempt's operation trace
+        try:
+            port = free_port()
+            s1 = dict(spec, port=port, **kill)
+            r1 = run_once(work, s1, timeout)
+            if busy(r1) and attempt < 3:
+                continue        # another process took the port between the probe and the bind: nothing ran, start over
+            n1 = len(r1['requests'])
+            s2 = dict(spec, port=port)
+            r2 = run_once(work, s2, timeout)
+            if busy(r2) and attempt < 3:
+                continue        # the rerun must listen on the same port (the table holds it); the pair is void, start over
+            r2['requests'] = r2['requests'][n1:]
+            return r1, r2
+        finally:
+            shutil.rmtree(work, ignore_errors=True)
